@@ -12,7 +12,7 @@ Author: Varun Agrawal, Gerry Chen
 
 from typing import List
 
-from pyparsing import Optional, ParseResults  # type: ignore
+from pyparsing import Keyword, Optional, ParseResults  # type: ignore
 
 from .tokens import DEFAULT_ARG, EQUAL, IDENT, SEMI_COLON
 from .type import TemplatedType, Type
@@ -33,6 +33,7 @@ class Variable:
     ````
     """
     rule = ((Type.rule ^ TemplatedType.rule)("ctype")  #
+            + ~Keyword("operator")  # `X operator==(...) const;` is no variable
             + IDENT("name")  #
             + Optional(EQUAL + DEFAULT_ARG)("default")  #
             + SEMI_COLON  #
